@@ -151,7 +151,7 @@ func (c *Ctx) RunChild(o ChildOpts) *ChildResult {
 	if name == "" {
 		name = "child"
 	}
-	base := filepath.Join(c.Scratch, fmt.Sprintf("%s-%d", name, n))
+	base := filepath.Join(c.Scratch, fmt.Sprintf("%s-%d-%d", name, os.Getpid(), n))
 	journal := base + ".journal"
 	errPath := base + ".stderr"
 	outPath := base + ".stdout"
